@@ -64,3 +64,32 @@ Proof.
     destruct (within_app _ _ _ _ Wt) as [_ W2]. destruct (within_app _ _ _ _ W2) as [W3 _]. apply ext_inside. exact W3.
 Qed.
 Print Assumptions C10_part_inside.
+
+(** ** failed parses: error positions lie inside the source (Proofs/ParserPos.v) *)
+From PQL Require Import Proofs.ParserPos Proofs.LineCol.
+
+(** every position attached to a parse error is an offset of the source (0 .. length, the end
+    included: "unexpected end of input" points at the end).  By induction over every production of
+    the parser model: an error position is always the start of one of the tokens given or the
+    source length. *)
+Theorem C10_parse_error_positions : forall s e, parse s = ParseErr e ->
+  Forall (fun x => match epos x with Some p => (p <= List.length s)%nat | None => True end) e.
+Proof. exact parse_error_positions. Qed.
+Print Assumptions C10_parse_error_positions.
+
+(** line:column of an offset: the line is one more than the number of newline bytes before the
+    offset - so it is a line of the source - and the column is at least 1 *)
+Theorem C10_linecol : forall s p,
+  fst (linecol s p) = (1 + count_nl (firstn p s))%nat /\ (1 <= snd (linecol s p))%nat /\ (fst (linecol s p) <= 1 + count_nl s)%nat.
+Proof.
+  intros s p. destruct (linecol_spec s p) as [H1 H2]. destruct (linecol_line_in_source s p) as [_ H3]. repeat split; assumption.
+Qed.
+Print Assumptions C10_linecol.
+
+(** on a line of ASCII characters without tabs the column is the distance from the line start plus one *)
+Theorem C10_linecol_plain_line : forall pre line_text rest,
+  forallb (fun c => (c <? 128)%N && negb (c =? 10)%N && negb (c =? 9)%N) line_text = true ->
+  linecol (pre ++ 10%N :: line_text ++ rest) (List.length pre + 1 + List.length line_text)%nat =
+  ((2 + count_nl pre)%nat, (1 + List.length line_text)%nat).
+Proof. exact linecol_plain_line. Qed.
+Print Assumptions C10_linecol_plain_line.
